@@ -203,6 +203,13 @@ Definition check_url_schemes (v : jv) : res (option jv) :=
   | _ => Raise TypeError
   end.
 
+(* check_positive_int: instance_of(int)(..); value <= 0 -> ValueError *)
+Definition check_positive_int (v : jv) : res (option jv) :=
+  match v with
+  | JInt z => if (0 <? z)%Z then Ok None else Raise ValueError
+  | _ => Raise TypeError
+  end.
+
 Definition str_len1 (v : jv) : bool := match v with JStr [_] => true | _ => false end.
 
 (* check_sub_delimiters *)
@@ -266,6 +273,9 @@ Definition n_check_heading_slug_func : str :=
 Definition n_check_fence_as_directive : str :=
   [99;104;101;99;107;95;102;101;110;99;101;95;97;115;95;100;105;114;101;99;116;105;118;101].
 
+Definition n_check_positive_int : str :=
+  [99;104;101;99;107;95;112;111;115;105;116;105;118;101;95;105;110;116].
+
 Definition custom (E : env) (name : str) (v : jv) : res (option jv) :=
   if str_eqb name n_check_extensions then check_extensions E v
   else if str_eqb name n_check_url_schemes then check_url_schemes v
@@ -273,6 +283,7 @@ Definition custom (E : env) (name : str) (v : jv) : res (option jv) :=
   else if str_eqb name n_check_inventories then check_inventories v
   else if str_eqb name n_check_heading_slug_func then check_heading_slug_func E v
   else if str_eqb name n_check_fence_as_directive then check_fence_as_directive v
+  else if str_eqb name n_check_positive_int then check_positive_int v
   else Raise AttributeError.     (* a validator the model does not know: never accepted *)
 
 (* for idx, member in enumerate(value): member_validator(inst, field, member) *)
@@ -500,32 +511,56 @@ Definition merge_file_level (E : env) := merge_file_level_gen E false.
 
 (* ------------------------------------------------------------------ docutils option strings *)
 
-Inductive okind : Type :=
-| KUrlSchemes | KInt | KBool | KStrRaw | KCommaList | KCommaSet | KTuple2 | KYamlDict.
-
 Definition s_url_schemes : str := [117;114;108;95;115;99;104;101;109;101;115].
-Definition s_heading_slug_func : str :=
-  [104;101;97;100;105;110;103;95;115;108;117;103;95;102;117;110;99].
 
-(* _attr_to_optparse_option: the if-chain on the field's name / type *)
-Definition optparse_kind (f : field) : res okind :=
-  if str_eqb (f_name f) s_url_schemes then Ok KUrlSchemes
-  else match f_ann f with
-       | AInt => Ok KInt
-       | ABool => Ok KBool
-       | AStr => Ok KStrRaw
-       | a =>
-           if str_eqb (f_name f) s_heading_slug_func then Ok KStrRaw
-           else match a with
-                | AIterable AStr | ASequence AStr => Ok KCommaList
-                | ASet AStr => Ok KCommaSet
-                | ATuple2 AStr AStr => Ok KTuple2
-                | AOr AInt ANone => Ok KInt
-                | AOr (AIterable AStr) ANone => Ok KCommaList
-                | ADict _ _ => Ok KYamlDict
-                | _ => Raise AssertionError
-                end
-       end.
+(* what the option validator chosen by _attr_to_optparse_option does with the string *)
+Inductive okind : Type :=
+| KUrlSchemes         (* _validate_url_schemes *)
+| KInt                (* _validate_int *)
+| KBool               (* frontend.validate_boolean *)
+| KStrRaw             (* no validator: the string itself *)
+| KCommaList          (* frontend.validate_comma_separated_list *)
+| KCommaSet           (* _validate_comma_separated_set *)
+| KTuple (n : nat)    (* _create_validate_tuple(n) *)
+| KYamlDict           (* _create_validate_yaml(field) *)
+| KChoice.            (* optparse "choice" (Literal types) - not modelled, no field has such a type *)
+
+(* the tests of the if-chain of _attr_to_optparse_option (regenerated into Gen/Config.v) *)
+Inductive ocond : Type :=
+| CNameIs (n : str)            (* at.name == "..." *)
+| CTypeIs (a : ann)            (* at.type is T  /  at.type == T *)
+| CTypeIn (l : list ann)       (* at.type in (T1, T2) *)
+| COr (a b : ocond)
+| COriginDict                  (* get_origin(at.type) is dict *)
+| CLiteralStr.                 (* get_origin(at.type) is Literal and all args are str *)
+
+Fixpoint ann_eqb (a b : ann) : bool :=
+  match a, b with
+  | ABool, ABool | AInt, AInt | AStr, AStr | AAny, AAny | ANone, ANone | ACallable, ACallable => true
+  | AName x, AName y => str_eqb x y
+  | ASet x, ASet y | AIterable x, AIterable y | ASequence x, ASequence y => ann_eqb x y
+  | ADict k1 v1, ADict k2 v2 => ann_eqb k1 k2 && ann_eqb v1 v2
+  | ATuple2 x1 y1, ATuple2 x2 y2 => ann_eqb x1 x2 && ann_eqb y1 y2
+  | AOr x1 y1, AOr x2 y2 => ann_eqb x1 x2 && ann_eqb y1 y2
+  | _, _ => false
+  end.
+
+Fixpoint eval_cond (f : field) (c : ocond) : bool :=
+  match c with
+  | CNameIs n => str_eqb (f_name f) n
+  | CTypeIs a => ann_eqb (f_ann f) a
+  | CTypeIn l => existsb (ann_eqb (f_ann f)) l
+  | COr a b => eval_cond f a || eval_cond f b
+  | COriginDict => match f_ann f with ADict _ _ => true | _ => false end
+  | CLiteralStr => false        (* the annotation grammar has no Literal *)
+  end.
+
+(* _attr_to_optparse_option: the first test that holds decides; none: AssertionError *)
+Fixpoint optparse_kind (rules : list (ocond * okind)) (f : field) : res okind :=
+  match rules with
+  | [] => Raise AssertionError
+  | (c, k) :: r => if eval_cond f c then Ok k else optparse_kind r f
+  end.
 
 (* docutils.frontend.validate_boolean *)
 Definition s_of (l : list N) : str := l.
@@ -558,10 +593,9 @@ Definition decode (k : okind) (s : str) (yaml : res jv) : res jv :=
   | KStrRaw => Ok (JStr s)
   | KCommaList => Ok (JList (map JStr (comma_list s)))
   | KCommaSet => Ok (mk_str_set (map JStr (comma_list s)))
-  | KTuple2 => match comma_list s with
-               | [a; b] => Ok (JTuple [JStr a; JStr b])
-               | _ => Raise ValueError
-               end
+  | KTuple n => let l := comma_list s in
+                if Nat.eqb (List.length l) n then Ok (JTuple (map JStr l)) else Raise ValueError
+  | KChoice => Raise AssertionError
   | KYamlDict => match yaml with
                  | Ok (JDict d) => Ok (JDict d)
                  | _ => Raise ValueError
@@ -579,23 +613,25 @@ Definition decode (k : okind) (s : str) (yaml : res jv) : res jv :=
 (* option parser + create_myst_config(settings): one --myst-<name>=<string> per entry; [yaml] is
    yaml.safe_load of the string (oracle).  An option for a field omitted from the docutils settings
    does not exist. *)
-Fixpoint decode_options (fs : list field) (opts : list (str * str * res jv)) : res (list (str * jv)) :=
+Fixpoint decode_options (rules : list (ocond * okind)) (fs : list field) (opts : list (str * str * res jv))
+  : res (list (str * jv)) :=
   match opts with
   | [] => Ok []
   | (n, s, y) :: r =>
       match find_field n fs with
       | Some f =>
           if f_omit_docutils f then Raise KeyError
-          else do k <- optparse_kind f;
+          else do k <- optparse_kind rules f;
                do v <- decode k s y;
-               do r' <- decode_options fs r;
+               do r' <- decode_options rules fs r;
                Ok ((n, v) :: r')
       | None => Raise KeyError
       end
   end.
 
-Definition docutils_config (E : env) (fs : list field) (opts : list (str * str * res jv)) : res config :=
-  do values <- decode_options fs opts;
+Definition docutils_config (E : env) (rules : list (ocond * okind)) (fs : list field)
+           (opts : list (str * str * res jv)) : res config :=
+  do values <- decode_options rules fs opts;
   mk_config E fs values.
 
 (* sphinx_ext.main.create_myst_config: every non-omitted field is passed explicitly, taken from conf.py
